@@ -12,7 +12,7 @@ Definition observed_sites : list (string * string * string * string) :=
    ("goag/specification", "NewSchema", "required : map[string]struct{}", "9d46b06c");
    ("goag/specification", "NewSchema", "schema.ExtensionProps.Extensions : map[string]interface{}", "f159cebc");
    ("goag/specification", "NewSecurityRequirements", "sr : SecurityRequirement", "90c28e7b");
-   ("goag/specification", "sortedKeys", "m : map[string]T", "b82d411c");
+   ("goag/specification", "sortedKeys", "m : map[string]T", "af6a6e8b");
    ("goag", "Generator.Generate", "s.Variables : map[string]*ServerVariable", "3b5ce473")].
 
 Definition observed_other : list (string * string * string) :=
